@@ -85,6 +85,7 @@ def run(ctx: common.Run):
         check_circuit(ctx, cirq, rng, circuit, qids, mode)
         if mode == 'qubit' and i % 2 == 0:
             check_sweep(ctx, cirq, rng, circuit, qids)
+    check_subcircuit_operations(ctx, cirq, ctx.substream('subcircuit-ops'))
     # the classical simulator on qudit gates: either it refuses the operation or the basis state it reports is the one the
     # operation's matrix maps the input to
     for d in (3, 4):
@@ -199,6 +200,73 @@ def check_circuit(ctx, cirq, rng, circuit, qids, mode):
             else:
                 if not vec_close(got, want, tol):
                     report(cname, name, got, want)
+
+
+def check_subcircuit_operations(ctx, cirq, rng):
+    """sub-circuit operations on one or two qubits, repeated k in -3..3 times (negative: the inverse of the body, |k| times), bare and
+    under a control: Circuit.unitary, cirq.unitary of the operation and the simulators equal the ordered product of the operations of
+    the flat form (written out here from the inverses of the body's gates, multiplied by the Lean reference interpreter)"""
+    qs = cirq.LineQubit.range(3)
+    for it in range(10 if ctx.tier == 'quick' else 120):
+        nq = rng.choice([1, 1, 2])
+        body_ops = []
+        for _ in range(rng.randint(1, 3)):
+            if nq == 2 and rng.random() < 0.4:
+                body_ops.append((cirq.CZ ** round(rng.uniform(0.1, 0.9), 3)).on(qs[0], qs[1]) if rng.random() < 0.5 else cirq.CNOT(qs[0], qs[1]))
+            else:
+                g = rng.choice([cirq.X ** 0.3, cirq.Y ** 0.7, cirq.Z ** 0.25, cirq.H ** 0.4, cirq.S, cirq.T, cirq.rx(0.7), cirq.XPowGate(exponent=0.5, global_shift=0.3)])
+                body_ops.append(g.on(qs[rng.randrange(nq)]))
+        k = rng.choice([-3, -2, -1, 1, 2, 3, -1, -2])
+        co = cirq.CircuitOperation(cirq.FrozenCircuit(body_ops), repetitions=k)
+        one = body_ops if k > 0 else [cirq.inverse(o) for o in reversed(body_ops)]
+        flat = one * abs(k)
+        controlled = rng.random() < 0.5
+        pre = [cirq.H(q) for q in qs]
+        if controlled:
+            wrapped = cirq.Circuit(pre, co.controlled_by(qs[2]))
+            flat_c = cirq.Circuit(pre, [o.controlled_by(qs[2]) for o in flat])
+        else:
+            wrapped = cirq.Circuit(pre, co)
+            flat_c = cirq.Circuit(pre, flat)
+        order = list(qs)
+        ops_, _cuts = to_lines(cirq, flat_c, order)
+        init = np.zeros(8, dtype=np.complex128)
+        init[0] = 1
+        out = ctx.driver.ask([{'p': 'C01', 'op': 'run', 'shape': [2, 2, 2], 'init': [common.c2j(z) for z in init], 'ops': ops_, 'cuts': []}])[0]
+        want = np.array([common.j2c(z) for z in out['final']])
+        ctx.case(['subcircuit-op', nq, k, controlled, [repr(o) for o in body_ops]], True)
+        rep = {'lines': [{'circuit': repr(wrapped), 'repetitions': k, 'controlled': controlled}], 'theorem_or_correspondence': 'applyOps via runArr_refines'}
+        entries = {
+            'Circuit.unitary': lambda: wrapped.unitary(qubit_order=order)[:, 0],
+            'Circuit.final_state_vector': lambda: wrapped.final_state_vector(qubit_order=order, dtype=np.complex128),
+            'Simulator.simulate': lambda: cirq.Simulator(dtype=np.complex128).simulate(wrapped, qubit_order=order).final_state_vector,
+            'Simulator[split=False].simulate': lambda: cirq.Simulator(dtype=np.complex128, split_untangled_states=False).simulate(wrapped, qubit_order=order).final_state_vector,
+            'DensityMatrixSimulator.simulate': lambda: np.diag(cirq.DensityMatrixSimulator(dtype=np.complex128).simulate(wrapped, qubit_order=order).final_density_matrix),
+        }
+        for name, f in entries.items():
+            ctx.count('entry', 'subcircuit:' + name)
+            got = f()
+            bad = not np.allclose(np.abs(got) if name.startswith('Density') else got, np.abs(want) ** 2 if name.startswith('Density') else want, atol=1e-6)
+            if bad:
+                ctx.report_witness('entry:subcircuit:' + name.split('[')[0], f'{name} of a circuit with a repeated (possibly inverted, possibly controlled) sub-circuit operation differs from the ordered product of its flat form',
+                                   dict(rep, impl_out=[str(np.round(got, 6).tolist())], spec_out=[str(np.round(want, 6).tolist())]))
+        # the matrix of the operation by itself
+        if not controlled:
+            sub_q = sorted(co.qubits)
+            u_want = cirq.Circuit(flat).unitary(qubit_order=sub_q)
+            ops2, _ = to_lines(cirq, cirq.Circuit(flat), sub_q)
+            cols = []
+            for b in range(2 ** len(sub_q)):
+                e = np.zeros(2 ** len(sub_q), dtype=np.complex128)
+                e[b] = 1
+                o2 = ctx.driver.ask([{'p': 'C01', 'op': 'run', 'shape': [2] * len(sub_q), 'init': [common.c2j(z) for z in e], 'ops': ops2, 'cuts': []}])[0]
+                cols.append(np.array([common.j2c(z) for z in o2['final']]))
+            u_lean = np.array(cols).T
+            got_u = cirq.unitary(co)
+            ctx.count('entry', 'subcircuit:cirq.unitary(op)')
+            if not np.allclose(got_u, u_lean, atol=1e-6):
+                ctx.report_witness('entry:subcircuit:unitary-of-operation', 'cirq.unitary of a repeated (possibly inverted) sub-circuit operation differs from the ordered product of its flat form',
+                                   dict(rep, impl_out=[str(np.round(got_u, 6).tolist())], spec_out=[str(np.round(u_lean, 6).tolist())]))
 
 
 def check_sweep(ctx, cirq, rng, circuit, qids):
